@@ -520,7 +520,6 @@ package ggql
 //@ eleminv []*ArgValue: v != nil
 //@ eleminv []*VarDef: v != nil
 //@ fieldinv DirectiveUse.Directive: v != nil && dirName(v.Name())
-//@ fieldinv FragRef.Fragment: v != nil
 //@ fieldinv VarDef.Type: v != nil
 //@ fieldinv Root.uuSchemaType: v != nil
 //@ fieldinv Enum.values: true
@@ -629,6 +628,7 @@ package ggql
 //@ spec selsH(ss []Selection) int reads ss[]
 //@ axiom selsHElem(ss []Selection, i int): 0 <= i && i < len(ss) ==> 0 <= selH(ss[i]) && selH(ss[i]) < selsH(ss)
 //@ axiom selHInline(in *Inline): in != nil ==> 0 <= selsH(in.Sels) && selsH(in.Sels) < selH(box(in))
+//@ axiom selHField(f *Field): f != nil ==> 0 <= selsH(f.Sels) && selsH(f.Sels) < selH(box(f))
 //@ spec fkey(f *Field) string = ite(len(f.Alias) > 0, f.Alias, f.Name)
 //@ spec skippedSel(sel Selection, vars map[string]interface{}) bool = skippedUpTo(sel.Directives(), vars, len(sel.Directives()))
 //@ spec fdOf(t Type, name string) *FieldDef = ite(is(t, *Object), as(t, *Object).fields.dict[name], ite(is(t, *uuSchema), as(t, *uuSchema).fields.dict[name], ite(is(t, *Schema), as(t, *Schema).fields.dict[name], ite(is(t, *Interface), as(t, *Interface).fields.dict[name], nil))))
@@ -717,6 +717,9 @@ package ggql
 //@   requires[list-resolver-first]{C02} !is(list, ListResolver)
 //@ interface AnyResolver.Nth
 //@   requires[list-resolver-first]{C02} !is(list, ListResolver)
+//@   results res, err
+//@   -- documented: "If not a list or out of bounds nil should be returned along with an error" (assumed of the application)
+//@   ensures[nil-with-error] err != nil ==> res == nil
 //@   ghost #res += 1
 //@   assigns fresh
 
@@ -751,6 +754,10 @@ package ggql
 //@           decreases len(f.Args) - rangeindex
 
 //@ interface InCoercer.CoerceIn
+//@   -- recursion through the interface (List, NonNull and Input coerce the parts of their input with the parts' types): every
+//@   -- such call is on a smaller value, or on the same value with a smaller type expression (C03: no unbounded recursion)
+//@   decreases{C03} valH(v)
+//@   decreases typeH(recv)
 //@   ensures[err-fresh] aserr(err) != nil ==> fresh(aserr(err))
 //@   ensures[conforms] err == nil ==> conformsIn(res, recv)
 //@   ensures[nonnil] err == nil && v != nil ==> res != nil
@@ -825,6 +832,9 @@ package ggql
 //@   props C04
 //@   check panic {C03}
 //@   requires t != nil
+//@   decreases{C03} valH(v)
+//@   decreases typeH(box(t))
+//@   use valHMap(asMap(v))
 //@   requires[json-shaped] is(v, map[string]interface{}) ==> asMap(v) != nil
 //@   results res, err
 //@   ensures[undeclared-field] is(v, map[string]interface{}) && (exists k string :: old(has(asMap(v), k)) && inFld(t, k) == nil) ==> err != nil
@@ -835,6 +845,7 @@ package ggql
 //@   ensures[coerced] is(v, map[string]interface{}) && t.meta == nil && err == nil ==> (forall k string {asMap(v)[k]} :: has(t.fields.dict, k) && old(asMap(v)[k]) != nil ==> conformsIn(asMap(v)[k], inFld(t, k).Type))
 //@   ensures[same-map] is(v, map[string]interface{}) && t.meta == nil && err == nil ==> res == v
 //@   ensures[nil] v == nil ==> res == nil && err == nil
+//@   ensures[non-object-refused] v != nil && !is(v, map[string]interface{}) && (t.meta == nil || t.meta != rtypeof(v)) ==> err != nil
 //@   ensures[err-fresh] aserr(err) != nil ==> fresh(aserr(err))
 //@   assigns fresh, v
 //@   loop 0: invariant[declared] forall k string {seen(0, k)} :: seen(0, k) ==> inFld(t, k) != nil
@@ -948,6 +959,11 @@ package ggql
 //@ spec keyPaths(ea []error, key string) bool = forall k int {ea[k]} :: 0 <= k && k < len(ea) && aserr(ea[k]) != nil ==> len(aserr(ea[k]).Path) >= 1 && aserr(ea[k]).Path[0] == box(key)
 //@ spec oldPathsKept(prev []error, dummy int) bool = forall k int {prev[k]} :: 0 <= k && k < len(prev) && aserr(prev[k]) != nil ==> aserr(prev[k]).Path == athdr(aserr(prev[k]).Path)
 
+//@ -- an element of a list of leaves is null or has the representation of the declared element type (C05), in the list
+//@ -- strategies that resolve their elements (ListResolver, []interface{}, AnyResolver Len/Nth); the typed-slice fast
+//@ -- paths copy without coercion and are not claimed
+//@ spec elemOk(x interface{}, bt Type) bool = x == nil || isnilv(x) || conformsOut(x, bt)
+//@ spec elemsOk(l []interface{}, n int, bt Type) bool = forall j int {l[j]} :: 0 <= j && j < n ==> elemOk(l[j], bt)
 //@ func (*Root).resolveList
 //@   requires[binding-locks-free]{C12} onlyRegistryLock(root)
 //@   decreases{C03} depth
@@ -959,22 +975,27 @@ package ggql
 //@   requires root != nil && field != nil && t != nil
 //@   ensures[errs-fresh]{C06} errsFresh(ea)
 //@   ensures[iface-list-len]{C01} is(obj, []interface{}) ==> is(result, []interface{}) && len(as(result, []interface{})) == len(as(obj, []interface{}))
+//@   ensures[elements-conform-listresolver]{C05} depth > 0 && isLeafT(t.Base) && is(obj, ListResolver) ==> is(result, []interface{}) && elemsOk(as(result, []interface{}), len(as(result, []interface{})), t.Base)
+//@   ensures[elements-conform-list]{C05} depth > 0 && isLeafT(t.Base) && !is(obj, ListResolver) && is(obj, []interface{}) ==> is(result, []interface{}) && elemsOk(as(result, []interface{}), len(as(result, []interface{})), t.Base)
 //@   ensures[listresolver-len]{C01} is(obj, ListResolver) && as(obj, ListResolver).Len() >= 0 ==> is(result, []interface{}) && len(as(result, []interface{})) == as(obj, ListResolver).Len()
 //@   assigns fresh, H_Field.ConType, H_Object.meta, H_FieldDef.goField, H_FieldDef.method, H_FieldDef.args, held, #res
 //@   ensures[locks-balanced]{C12,C20} held == old(held)
 //@   loop 0: invariant[bounds] 0 <= i && (i <= cnt || i == 0)
+//@           invariant[elements-conform]{C05} depth > 0 && isLeafT(t.Base) ==> elemsOk(rlist, len(rlist), t.Base)
 //@           invariant[len] len(rlist) == i
 //@           invariant[errs] errsFresh(ea)
 //@           invariant[idx]{C06} idxPaths(ea, i, len(hdr(ea)))
 //@           preserves[old-paths]{C06} oldPathsKept(hdr(ea), 0)
 //@           decreases cnt - i
 //@   loop 1: invariant[bounds] 0 <= rangeindex+1 && rangeindex+1 <= len(list)
+//@           invariant[elements-conform]{C05} depth > 0 && isLeafT(t.Base) ==> elemsOk(rlist, len(rlist), t.Base)
 //@           invariant[len] len(rlist) == rangeindex+1
 //@           invariant[errs] errsFresh(ea)
 //@           invariant[idx]{C06} idxPaths(ea, rangeindex+1, len(hdr(ea)))
 //@           preserves[old-paths]{C06} oldPathsKept(hdr(ea), 0)
 //@           decreases len(list) - rangeindex
 //@   loop 9: invariant[bounds] 0 <= i && (i <= cnt || i == 0)
+//@           invariant[elements-conform]{C05} depth > 0 && isLeafT(t.Base) ==> elemsOk(rlist, len(rlist), t.Base)
 //@           invariant[len] len(rlist) == i
 //@           invariant[errs] errsFresh(ea)
 //@           invariant[idx]{C06} idxPaths(ea, i, len(hdr(ea)))
@@ -1071,6 +1092,9 @@ package ggql
 //@   props C04
 //@   check panic {C03}
 //@   requires t != nil
+//@   decreases{C03} valH(v)
+//@   decreases typeH(box(t))
+//@   use typeHNonNull(t)
 //@   results res, err
 //@   ensures[conforms-spec] err == nil ==> conformsIn(res, box(t))
 //@   ensures[nonnil] err == nil ==> res != nil
@@ -1117,6 +1141,9 @@ package ggql
 //@   check panic {C03}
 //@   check frame {C11}
 //@   requires t != nil
+//@   decreases{C03} valH(v)
+//@   decreases typeH(box(t))
+//@   use valHList(list, i)
 //@   results res, err
 //@   ensures[nil] v == nil ==> res == nil && err == nil
 //@   ensures[conforms-spec]{C04} err == nil ==> conformsIn(res, box(t))
